@@ -771,7 +771,8 @@ theorem modifyEom_step {s : SeqState} {n : ChName} {e : EomIn}
                   by_cases hmn : m = n
                   · simp [hmn, Option.map_map]
                   · simp [hmn]
-                · exact t3.trans (by rw [hfrw.1])
+                · have hc : s1.calls = s.calls := by rw [← hs1]; exact hfrw.1
+                  exact t3.trans (by rw [hc])
               · intro s2
                 simp only
                 repeat' split
